@@ -1423,9 +1423,20 @@ def _str_format_impl(ctx: CallContext) -> Value:
         _, message = errors[0]
         ctx.show_error(message, error_code=ErrorCode.incompatible_call)
         return TypedValue(str)
+    # None until the first positional field, then True (automatic numbering,
+    # "{}") or False (manual numbering, "{0}"); str.format raises ValueError
+    # when a template switches between the two
+    auto_numbering = None
     for field in parsed.iter_replacement_fields():
         # TODO validate conversion specifiers, attributes, etc.
         if field.arg_name is None:
+            if auto_numbering is False:
+                ctx.show_error(
+                    "cannot switch from manual field specification to automatic"
+                    " field numbering",
+                    error_code=ErrorCode.incompatible_call,
+                )
+            auto_numbering = True
             if current_index >= len(args):
                 ctx.show_error(
                     "Too few arguments to format string (expected at least"
@@ -1435,6 +1446,13 @@ def _str_format_impl(ctx: CallContext) -> Value:
             used_indices.add(current_index)
             current_index += 1
         elif isinstance(field.arg_name, int):
+            if auto_numbering is True:
+                ctx.show_error(
+                    "cannot switch from automatic field numbering to manual field"
+                    " specification",
+                    error_code=ErrorCode.incompatible_call,
+                )
+            auto_numbering = False
             index = field.arg_name
             if index >= len(args):
                 ctx.show_error(
